@@ -235,7 +235,7 @@ PUnary(ts, pi, dv) ==
   ELSE IF kw \in UpdOps
   THEN LET arg == PUnary(ts, pi + 1, dv) IN
        IF ~arg.ok THEN arg
-       ELSE IF ~TargetOK(arg.t, dv) THEN Fail(pi + 1)                  \* early error: invalid update target
+       ELSE IF ~TargetOK(arg.t, dv) THEN Fail(arg.n)                   \* early error: invalid update target (known once the operand is complete)
        ELSE Ok(Node("pre", kw, <<arg.t>>), arg.n)
   ELSE PPostfix(ts, pi, dv)
 
